@@ -39,6 +39,11 @@ What is proved (Lemmas/CliRunAll.lean has the helper lemmas):
   of C03/C04/C18 (`C02_run_decodes_lcov`, `_files`, `_coveralls`, `_covdir`, `_cobertura`, `_ade`);
 * for lcov inputs, lcov output and no `--excl-*` option the run is `Cli.run` of C05/C06
   (`C02_run_extends_cli_run`).
+Fifth session: the inputs may also be LLVM-mode gcno/gcda items (`Input.gcno`; every theorem above is
+about `contents`, whatever the kind: what such an item holds is `C15_run_contents_gcno`), markdown is an
+eighth stream type (decoding: `C03_run_decodes_markdown`), html is `runHtml`
+(`C02_run_html_perm_sorted_bytes`; pages: Props/C03Run.lean), and several `-t` with `-o <dir>` are
+`runMulti` (`C02_run_multi_is_single_runs`: each file is the single-type run's bytes).
 -/
 import GrcovModel.Lemmas.CliRunAll
 import GrcovModel.Lemmas.CliRunAllLcovWF
@@ -62,13 +67,13 @@ theorem C02_run_sorted_iff (o : Opts) :
     sortedFor o = true ↔ o.out.toMain ∈ o.sortTypes := by
   simp [sortedFor]
 
-/-- With the default `--sort-output-types markdown` none of the seven types is sorted: the records
-come in the iteration order of the result map. -/
+/-- With the default `--sort-output-types markdown` none of the seven types of the fourth session is
+sorted – the records come in the iteration order of the result map – and markdown is. -/
 theorem C02_run_default_unsorted (o : Opts) (h : o.sortTypes = [.markdown]) (rs : List Rec) :
-    ordered o rs = o.hash.recs rs := by
-  have : sortedFor o = false := by
-    unfold sortedFor; rw [h]; cases o.out <;> rfl
-  simp [ordered, this]
+    ordered o rs = if o.out = .markdown then MainGlue.sortRecs (o.hash.recs rs) else o.hash.recs rs := by
+  unfold ordered sortedFor
+  rw [h]
+  cases o.out <;> rfl
 
 /-! ### the result map -/
 
@@ -439,6 +444,106 @@ theorem C02_run_extends_cli_run (cfg : Cfg) (branch : Bool) (w : World) (bs : Li
     intro r _
     rfl
 
+/-! ### html, and several `-t` at once (fifth session) -/
+
+/-- **html: sorted sites are byte-identical under a permutation of the inputs.** With
+`--sort-output-types html` and pairwise distinct displayed paths, every permutation of the inputs
+gives the same html directory – every page, index, badge and `coverage.json`, byte for byte – or both
+runs end without a report. (Unsorted, the jobs reach the consumer threads in another order; the
+pages are the same set as long as no two records share a destination: `C03_run_html_page_of_record`.) -/
+theorem C02_run_html_perm_sorted_bytes (o : Opts) (w : World) (ins₁ ins₂ : List Input) (hwf : InputsWF o ins₁)
+    (hag : StartsAgree o w ins₁) (hh : o.hash.OK) (p : ins₁.Perm ins₂)
+    (hs : sortedHtml o = true)
+    (hd : ∀ rs, records o w ins₁ = .ok rs → (rs.map MainGlue.sortKey).Nodup) :
+    runHtml o w ins₁ = runHtml o w ins₂ ∨
+      ∃ s₁ s₂, runHtml o w ins₁ = .panic s₁ ∧ runHtml o w ins₂ = .panic s₂ := by
+  cases hc₁ : ins₁.findSome? (crash o.branch) with
+  | some s₁ =>
+    cases hc₂ : ins₂.findSome? (crash o.branch) with
+    | none => rw [(crash_perm o.branch p).2 hc₂] at hc₁; cases hc₁
+    | some s₂ => exact Or.inr ⟨s₁, s₂, by simp [runHtml, hc₁], by simp [runHtml, hc₂]⟩
+  | none =>
+    have hc₂ := (crash_perm o.branch p).1 hc₁
+    rcases records_perm o w hwf hag p with ⟨s₁, s₂, e₁, e₂⟩ | ⟨rs₁, rs₂, e₁, e₂, pp⟩
+    · exact Or.inr ⟨s₁, s₂, by simp [runHtml, hc₁, e₁], by simp [runHtml, hc₂, e₂]⟩
+    · left
+      have hnd := hd rs₁ e₁
+      have e : (orderedHtml o rs₁).map (present o) = (orderedHtml o rs₂).map (present o) := by
+        simp only [orderedHtml, hs, if_true]
+        apply sorted_present_eq
+        · exact (((hh.recsPerm rs₁).map _).trans pp).trans ((hh.recsPerm rs₂).map _).symm
+        · exact (((hh.recsPerm rs₁).map MainGlue.sortKey).nodup_iff).2 hnd
+      simp only [runHtml, hc₁, hc₂, e₁, e₂, reportHtml, e]
+
+/-- what one `-t` of a command line with several leaves in the output directory, against the run
+with that type alone -/
+def ArtifactOf (o : Opts) (w : World) (ins : List Input) : OutKind → Artifact → Prop
+  | .stream t, a => ∃ b, run { o with out := t } w ins = .ok b ∧ a = .file (MainGlue.fixedName t.toMain) b
+  | .html, a => ∃ fs, runHtml o w ins = .ok fs ∧ a = .dir (MainGlue.fixedName .html) fs
+
+/-- … for all types of the command line, in order -/
+def ArtifactsOf (o : Opts) (w : World) (ins : List Input) : List OutKind → List Artifact → Prop
+  | [], [] => True
+  | k :: ks, a :: as => ArtifactOf o w ins k a ∧ ArtifactsOf o w ins ks as
+  | _, _ => False
+
+/-- **Several `-t` at once = the single runs.** A run with several report types and `-o <directory>`
+that ends normally leaves, per type in command-line order, exactly the bytes the run with that type
+alone writes (same inputs, same options): the file named by `to_file_name`, or the directory `html`.
+Every theorem about `run` / `runHtml` is therefore a theorem about each file of a multi-type run. -/
+theorem C02_run_multi_is_single_runs (o : Opts) (w : World) (ins : List Input) (kinds : List OutKind)
+    (arts : List Artifact) (h : runMulti o w ins kinds = .ok arts) :
+    ArtifactsOf o w ins kinds arts := by
+  unfold runMulti at h
+  cases hc : ins.findSome? (crash o.branch) with
+  | some s => rw [hc] at h; cases h
+  | none =>
+    rw [hc] at h
+    cases hr : records o w ins with
+    | panic s => rw [hr] at h; cases h
+    | ok rs =>
+      rw [hr] at h
+      induction kinds generalizing arts with
+      | nil =>
+        simp only [writeKinds, Res.ok.injEq] at h
+        subst h
+        trivial
+      | cons k ks ih =>
+        unfold writeKinds at h
+        cases k with
+        | stream t =>
+          simp only at h
+          cases hrep : report { o with out := t } rs with
+          | panic s => rw [hrep] at h; cases h
+          | ok b =>
+            rw [hrep] at h
+            simp only at h
+            cases hrest : writeKinds o w rs ks with
+            | panic s => rw [hrest] at h; cases h
+            | ok as =>
+              rw [hrest] at h
+              simp only [Res.ok.injEq] at h
+              subst h
+              refine ⟨⟨b, ?_, rfl⟩, ih as hrest⟩
+              have hc' : ins.findSome? (crash ({ o with out := t } : Opts).branch) = none := hc
+              have hr' : records { o with out := t } w ins = .ok rs := hr
+              simp only [run, hc', hr', hrep]
+        | html =>
+          simp only at h
+          cases hrep : reportHtml o w rs with
+          | panic s => rw [hrep] at h; cases h
+          | ok fs =>
+            rw [hrep] at h
+            simp only at h
+            cases hrest : writeKinds o w rs ks with
+            | panic s => rw [hrest] at h; cases h
+            | ok as =>
+              rw [hrest] at h
+              simp only [Res.ok.injEq] at h
+              subst h
+              refine ⟨⟨fs, ?_, rfl⟩, ih as hrest⟩
+              simp only [runHtml, hc, hr, hrep]
+
 /-! ### closed witnesses and non-vacuity -/
 
 namespace RunWit
@@ -535,6 +640,17 @@ example : run { out := .covdir, branch := true } w0 [.lcov l1, .jacoco j1, .lcov
       = run { out := .covdir, branch := true } w0 [.lcov l2, .lcov l1, .jacoco j1] ∧
     (match run { out := .covdir, branch := true } w0 [.lcov l1, .jacoco j1, .lcov l2] with
      | .ok b => decide (200 < b.length) | .panic _ => false) = true := by
+  decide +kernel
+
+/-- `C02_run_multi_is_single_runs` on a closed case: `-t lcov -t markdown -t html -o dir` on a tracefile
+and a JaCoCo report ends normally with three artifacts (`lcov`, `markdown.md`, the directory `html`), and
+the first is the single lcov run's report -/
+example :
+    (match runMulti lcovSorted w0 [.lcov l1, .jacoco j1, .lcov l2] [.stream .lcov, .stream .markdown, .html] with
+     | .ok [.file n b, .file n' _, .dir n'' fs] =>
+       decide (n = MainGlue.fixedName .lcov) && decide (n' = MainGlue.fixedName .markdown) &&
+       decide (n'' = MainGlue.fixedName .html) && decide (b = sortedReport) && decide (fs.length = 7)
+     | _ => false) = true := by
   decide +kernel
 
 /-- `C02_run_rejected_contributes_nothing` on a closed case: `bad` is rejected although its first
